@@ -18,6 +18,109 @@ spelling of the token it returned, and the rest is returned unchanged.
 namespace C02
 open ExprParse ExprScan
 
+/-! ## the character classes `\s`, `\d`, `\w`, `[A-Za-z_]` (Unicode tables) against each other -/
+
+theorem isPySpace_eq (c : Char) : isPySpace c = Text.isSpace c := by
+  simp only [isPySpace, Text.isSpace, Text.isSpaceN]
+
+def spaceCodes : List Nat :=
+  [9, 10, 11, 12, 13, 0x1c, 0x1d, 0x1e, 0x1f, 0x20, 0x85, 0xa0, 0x1680, 0x2000, 0x2001, 0x2002, 0x2003, 0x2004, 0x2005,
+   0x2006, 0x2007, 0x2008, 0x2009, 0x200a, 0x2028, 0x2029, 0x202f, 0x205f, 0x3000]
+
+theorem isPySpace_mem {c : Char} (h : isPySpace c = true) : c.toNat ∈ spaceCodes := by
+  simp only [isPySpace, Bool.or_eq_true, Bool.and_eq_true, decide_eq_true_eq, beq_iff_eq] at h
+  simp only [spaceCodes, List.mem_cons, List.not_mem_nil, or_false]
+  omega
+
+theorem spaceCodes_not_word : ∀ n ∈ spaceCodes, Text.isWordN n = false := by decide +kernel
+
+/-- `\s` and `\w` are disjoint -/
+theorem space_not_word {c : Char} (h : isPySpace c = true) : isWord c = false :=
+  spaceCodes_not_word _ (isPySpace_mem h)
+
+theorem word_not_space {c : Char} (h : isWord c = true) : isPySpace c = false := by
+  cases hs : isPySpace c with
+  | false => rfl
+  | true => rw [space_not_word hs] at h; cases h
+
+/-- `[A-Za-z_]` is part of `\w` -/
+theorem idStart_word {c : Char} (h : isIdStart c = true) : isWord c = true := by
+  revert h; unfold isIdStart isWord Text.isWord Text.isWordN
+  simp only [Bool.or_eq_true, Bool.and_eq_true, decide_eq_true_eq, beq_iff_eq]
+  intro h
+  have hlt : c.toNat < 128 := by
+    rcases h with (h | h) | h
+    · omega
+    · omega
+    · subst h; decide
+  simp only [hlt, if_true, Bool.or_eq_true, Bool.and_eq_true, decide_eq_true_eq, beq_iff_eq]
+  rcases h with (h | h) | h
+  · omega
+  · omega
+  · subst h; decide
+
+theorem isDigit_iff {c : Char} : isDigit c = true ↔ ∃ r ∈ Rx.digitRanges, r.1 ≤ c.toNat ∧ c.toNat ≤ r.2 := by
+  simp only [isDigit, Rx.isDigitU, Rx.isDigitN, List.any_eq_true, Bool.and_eq_true, decide_eq_true_eq]
+
+example : isDigit '٣' = true ∧ digitVal '٣' = 3 ∧ digitVal '𝟡' = 9 ∧ isDigit '²' = false ∧ isWord '²' = true ∧ isWord 'é' = true ∧
+    isIdStart 'é' = false ∧ isWord '€' = false := by decide +kernel
+
+/-- every run of `\d` is the ASCII run `0..9` or lies, above ASCII, inside one run of `\w` (finite table fact) -/
+theorem digitRanges_word :
+    Rx.digitRanges.all (fun r => (r.1 == 48 && r.2 == 57) ||
+      (decide (128 ≤ r.1) && Text.wordRanges.any (fun w => decide (w.1 ≤ r.1) && decide (r.2 ≤ w.2)))) = true := by
+  decide +kernel
+
+/-- `\d` is part of `\w` -/
+theorem digit_word {c : Char} (h : isDigit c = true) : isWord c = true := by
+  obtain ⟨r, hr, h1, h2⟩ := isDigit_iff.mp h
+  have := List.all_eq_true.mp digitRanges_word r hr
+  simp only [Bool.or_eq_true, Bool.and_eq_true, beq_iff_eq, decide_eq_true_eq, List.any_eq_true] at this
+  unfold isWord Text.isWord Text.isWordN
+  rcases this with ⟨e1, e2⟩ | ⟨e1, w, hw, e2, e3⟩
+  · have hlt : c.toNat < 128 := by omega
+    simp only [hlt, if_true, Bool.or_eq_true, Bool.and_eq_true, decide_eq_true_eq, beq_iff_eq]
+    omega
+  · have hlt : ¬ c.toNat < 128 := by omega
+    simp only [hlt, if_false, List.any_eq_true, Bool.and_eq_true, decide_eq_true_eq]
+    exact ⟨w, hw, by omega, by omega⟩
+
+theorem digit_not_space {c : Char} (h : isDigit c = true) : isPySpace c = false := word_not_space (digit_word h)
+
+/-- no run of `\d` meets `[A-Za-z_]` (finite table fact) -/
+theorem digitRanges_not_idStart :
+    Rx.digitRanges.all (fun r => decide (r.2 < 65) || decide (122 < r.1)) = true := by decide +kernel
+
+theorem digit_not_idStart {c : Char} (h : isDigit c = true) : isIdStart c = false := by
+  obtain ⟨r, hr, h1, h2⟩ := isDigit_iff.mp h
+  have := List.all_eq_true.mp digitRanges_not_idStart r hr
+  simp only [Bool.or_eq_true, decide_eq_true_eq] at this
+  cases hi : isIdStart c with
+  | false => rfl
+  | true =>
+    exfalso
+    simp only [isIdStart, Bool.or_eq_true, Bool.and_eq_true, decide_eq_true_eq, beq_iff_eq] at hi
+    rcases hi with (hi | hi) | hi
+    · omega
+    · omega
+    · subst hi; revert h1 h2; simp only [show ('_' : Char).toNat = 95 from rfl]; omega
+
+theorem idStart_not_digit {c : Char} (h : isIdStart c = true) : isDigit c = false := by
+  cases hd : isDigit c with
+  | false => rfl
+  | true => rw [digit_not_idStart hd] at h; cases h
+
+/-- a character of the ASCII run `0..9` is a `\d` with its ASCII value -/
+theorem isDigit_ascii {c : Char} (h1 : 48 ≤ c.toNat) (h2 : c.toNat ≤ 57) : isDigit c = true ∧ digitVal c = c.toNat - 48 := by
+  constructor
+  · exact isDigit_iff.mpr ⟨(48, 57), by simp [Rx.digitRanges], h1, h2⟩
+  · have : Rx.digitRanges.find? (fun r => decide (r.1 ≤ c.toNat) && decide (c.toNat ≤ r.2)) = some (48, 57) := by
+      unfold Rx.digitRanges
+      rw [List.find?_cons_of_pos]
+      simp [h1, h2]
+    simp only [digitVal, this]
+    omega
+
 /-! ## tokens of a tree -/
 
 inductive Tok where
@@ -56,7 +159,7 @@ end
 def AllSpace (ws : List Char) : Prop := ∀ c ∈ ws, isPySpace c = true
 def AllDigits (ds : List Char) : Prop := ∀ c ∈ ds, isDigit c = true
 
-/-- `[A-Za-z_]\w*` (ASCII model of `\w`) -/
+/-- `[A-Za-z_]\w*` -/
 def IdentShape (id : List Char) : Prop := ∃ c w, id = c :: w ∧ isIdStart c = true ∧ ∀ d ∈ w, isWord d = true
 
 /-- the language `(?:\\\\|\\q|[^q])*` -/
